@@ -68,6 +68,98 @@ def short_name(f):
     return f.qualname.split("BaseProperty.", 1)[1] if "BaseProperty." in f.qualname else f.name
 
 
+def ret1_rule(prog, rep):
+    """RET-1 (shared with C01/C02: a value written as text is re-read by these converters, so they must return normal forms)."""
+    dmod = prog.module_of("dtypes")
+    fd0 = Folder(prog)
+    fd = fd0
+    # ----------------------------------------------------------------- RET-1
+    rep.rule("RET-1", "return expressions of the converters, by form: int_get -> int(...), float_get -> float(...), str_get -> str(...), "
+                      "boolean_get -> True/False, date_get -> strptime(.., FORMAT_DATE).date(), time_get -> strptime(.., FORMAT_TIME)"
+                      ".time(), datetime_get -> strptime(.., FORMAT_DATETIME); defaults via default_values(<literal>); "
+                      "tuple_get -> list of stripped strings of the required length; no converter returns its argument unchanged")
+    def fold_const(e):
+        return fd0.try_fold(e, dmod, default=None)
+    for name, allowed in sorted(RETURN_TYPES.items()):
+        f = dmod.functions.get(name)
+        if f is None:
+            raise AnalysisError("dtypes.%s vanished" % name)
+        rep.saw_function(f)
+        g = build_cfg(f)
+        xr = Expander(f, g, inline=prog)
+        rets = [n for n in g.nodes if n.kind == "return"]
+        rep.floor("RET-1", len(rets), 2, "returns in %s" % name)
+        for rn in rets:
+            r = xr.expand(rn.ast.value, rn) if rn.ast.value is not None else None
+            ts = value_type(r, g, rn, f.params, fold_const, inline_call=lambda c: xr._inline_call(c, None, 0, set())) if r is not None else set(["None"])
+            rep.check(ts <= set(allowed), "RET-1", "%s returns %s" % (name, "/".join(sorted(ts))), "typed result",
+                      "%s returns `%s` of shape %s, not one of %s (e.g. a pass-through keeps foreign types / sub-second parts)"
+                      % (name, unparse(r)[:70] if r is not None else "None", sorted(ts), list(allowed)), where(f, rn.ast),
+                      witness="a datetime with microseconds / a str for dtype int is stored as is")
+    fd = Folder(prog)
+    for nm, want in (("FORMAT_DATE", "%Y-%m-%d"), ("FORMAT_DATETIME", "%Y-%m-%d %H:%M:%S"), ("FORMAT_TIME", "%H:%M:%S")):
+        try:
+            v = fd.module_const("odml.dtypes", nm)
+        except Unfoldable:
+            v = None
+        rep.check(v == want, "RET-1", "dtypes.%s" % nm, repr(v), "%s is %r: values would carry another resolution than seconds" % (nm, v), dmod.path)
+    dv = dmod.functions.get("default_values")
+    rep.saw_function(dv)
+    table = [n for n in ast.walk(dv.node) if isinstance(n, ast.Dict)]
+    ok = len(table) == 1
+    if ok:
+        d = fd.try_fold(table[0], dmod, default={})
+        for k, ty in DEFAULT_TYPES.items():
+            rep.check(k in d and type(d[k]) is ty, "RET-1", "default value of %s" % k, repr(d.get(k)),
+                      "default value of dtype %s is %r, not a %s" % (k, d.get(k), ty.__name__), where(dv, table[0]))
+    dg = build_cfg(dv)
+    dx = Expander(dv, dg, inline=prog)
+    dts = set()
+    for rn in [n for n in dg.nodes if n.kind == "return" and n.ast.value is not None]:
+        dts |= value_type(dx.expand(rn.ast.value, rn), dg, rn, dv.params, fold_const, inline_call=lambda c: dx._inline_call(c, None, 0, set()))
+    typed = set(t for t in dts if not t.startswith("?:") or t.startswith("?:default_dtype_value") or "[" in t)
+    bad = sorted(t for t in dts if t in ("datetime-now", "time-with-microseconds") or t.startswith("param"))
+    for kind in ("datetime", "date", "time"):
+        rep.check(kind in dts and not bad, "RET-1", "default value of %s has no sub-second part" % kind, str(sorted(dts)),
+                  "default_values returns %s: the default %s is missing or carries microseconds" % (sorted(dts), kind), dv.where,
+                  witness="an empty %s value carries microseconds" % kind)
+    tg = dmod.functions.get("tuple_get")
+    rep.saw_function(tg)
+    g = build_cfg(tg)
+    rets = [n for n in g.nodes if n.kind == "return"]
+    cnt_param = tg.params[1] if len(tg.params) > 1 else "count"
+    shapes = set()
+    tgx = Expander(tg, g, inline=prog)
+    for rn in rets:
+        ts = value_type(tgx.expand(rn.ast.value, rn), g, rn, tg.params, fold_const) if rn.ast.value is not None else set(["None"])
+        shapes |= ts
+        if "strlist" in ts and isinstance(rn.ast.value, ast.Name):
+            lv = rn.ast.value.id
+
+            def classify(leaf, lv=lv, cnt_param=cnt_param):
+                if isinstance(leaf, ast.Compare) and len(leaf.ops) == 1 and isinstance(leaf.ops[0], ast.Is) \
+                        and unparse(leaf.left) == cnt_param and unparse(leaf.comparators[0]) == "None":
+                    return "N"
+                if isinstance(leaf, ast.Compare) and len(leaf.ops) == 1 and isinstance(leaf.ops[0], ast.Eq):
+                    sides = set([unparse(leaf.left), unparse(leaf.comparators[0])])
+                    if sides == set(["len(%s)" % lv, cnt_param]):
+                        return "E"
+                return None
+            good = known(g, rn, classify, lambda a: a["N"] or a["E"], ["N", "E"])
+            rep.check(good, "RET-1", "tuple_get enforces the tuple length", "every path to the return knows count is None or len == count",
+                      "tuple_get can return a list whose length differs from the required count", where(tg, rn.ast),
+                      witness="a 3-tuple value is accepted for dtype 2-tuple")
+    rep.check(shapes <= set(["None", "strlist"]) and "strlist" in shapes, "RET-1", "tuple_get returns a list of stripped strings or None", str(sorted(shapes)),
+              "tuple_get returns %s" % sorted(shapes), tg.where)
+    # aliases
+    for alias, target in (("bool_get", "boolean_get"), ("bool_set", "boolean_get"), ("string_get", "str_get"), ("str_set", "str_get"),
+                          ("time_set", "time_get"), ("date_set", "date_get"), ("datetime_set", "datetime_get"), ("boolean_set", "boolean_get")):
+        r = prog.resolve_symbol("odml.dtypes", alias)
+        rep.check(getattr(r, "name", None) == target, "RET-1", "alias %s -> %s" % (alias, target), "ok",
+                  "dtypes.%s no longer is %s" % (alias, target), dmod.path)
+
+
+
 def run(prog, rep):
     rep.decided = DECIDED
     rep.not_decided = NOT_DECIDED
@@ -240,90 +332,7 @@ def run(prog, rep):
     rep.check(bool(slf) and "__dict__" in unparse(slf[-1]), "TAB-1", "dtypes.self is the module dictionary", "ok",
               "the dispatch table `self` is no longer the module's __dict__", dmod.path)
 
-    # ----------------------------------------------------------------- RET-1
-    rep.rule("RET-1", "return expressions of the converters, by form: int_get -> int(...), float_get -> float(...), str_get -> str(...), "
-                      "boolean_get -> True/False, date_get -> strptime(.., FORMAT_DATE).date(), time_get -> strptime(.., FORMAT_TIME)"
-                      ".time(), datetime_get -> strptime(.., FORMAT_DATETIME); defaults via default_values(<literal>); "
-                      "tuple_get -> list of stripped strings of the required length; no converter returns its argument unchanged")
-    def fold_const(e):
-        return fd0.try_fold(e, dmod, default=None)
-    for name, allowed in sorted(RETURN_TYPES.items()):
-        f = dmod.functions.get(name)
-        if f is None:
-            raise AnalysisError("dtypes.%s vanished" % name)
-        rep.saw_function(f)
-        g = build_cfg(f)
-        xr = Expander(f, g, inline=prog)
-        rets = [n for n in g.nodes if n.kind == "return"]
-        rep.floor("RET-1", len(rets), 2, "returns in %s" % name)
-        for rn in rets:
-            r = xr.expand(rn.ast.value, rn) if rn.ast.value is not None else None
-            ts = value_type(r, g, rn, f.params, fold_const, inline_call=lambda c: xr._inline_call(c, None, 0, set())) if r is not None else set(["None"])
-            rep.check(ts <= set(allowed), "RET-1", "%s returns %s" % (name, "/".join(sorted(ts))), "typed result",
-                      "%s returns `%s` of shape %s, not one of %s (e.g. a pass-through keeps foreign types / sub-second parts)"
-                      % (name, unparse(r)[:70] if r is not None else "None", sorted(ts), list(allowed)), where(f, rn.ast),
-                      witness="a datetime with microseconds / a str for dtype int is stored as is")
-    fd = Folder(prog)
-    for nm, want in (("FORMAT_DATE", "%Y-%m-%d"), ("FORMAT_DATETIME", "%Y-%m-%d %H:%M:%S"), ("FORMAT_TIME", "%H:%M:%S")):
-        try:
-            v = fd.module_const("odml.dtypes", nm)
-        except Unfoldable:
-            v = None
-        rep.check(v == want, "RET-1", "dtypes.%s" % nm, repr(v), "%s is %r: values would carry another resolution than seconds" % (nm, v), dmod.path)
-    dv = dmod.functions.get("default_values")
-    rep.saw_function(dv)
-    table = [n for n in ast.walk(dv.node) if isinstance(n, ast.Dict)]
-    ok = len(table) == 1
-    if ok:
-        d = fd.try_fold(table[0], dmod, default={})
-        for k, ty in DEFAULT_TYPES.items():
-            rep.check(k in d and type(d[k]) is ty, "RET-1", "default value of %s" % k, repr(d.get(k)),
-                      "default value of dtype %s is %r, not a %s" % (k, d.get(k), ty.__name__), where(dv, table[0]))
-    dg = build_cfg(dv)
-    dx = Expander(dv, dg, inline=prog)
-    dts = set()
-    for rn in [n for n in dg.nodes if n.kind == "return" and n.ast.value is not None]:
-        dts |= value_type(dx.expand(rn.ast.value, rn), dg, rn, dv.params, fold_const, inline_call=lambda c: dx._inline_call(c, None, 0, set()))
-    typed = set(t for t in dts if not t.startswith("?:") or t.startswith("?:default_dtype_value") or "[" in t)
-    bad = sorted(t for t in dts if t in ("datetime-now", "time-with-microseconds") or t.startswith("param"))
-    for kind in ("datetime", "date", "time"):
-        rep.check(kind in dts and not bad, "RET-1", "default value of %s has no sub-second part" % kind, str(sorted(dts)),
-                  "default_values returns %s: the default %s is missing or carries microseconds" % (sorted(dts), kind), dv.where,
-                  witness="an empty %s value carries microseconds" % kind)
-    tg = dmod.functions.get("tuple_get")
-    rep.saw_function(tg)
-    g = build_cfg(tg)
-    rets = [n for n in g.nodes if n.kind == "return"]
-    cnt_param = tg.params[1] if len(tg.params) > 1 else "count"
-    shapes = set()
-    tgx = Expander(tg, g, inline=prog)
-    for rn in rets:
-        ts = value_type(tgx.expand(rn.ast.value, rn), g, rn, tg.params, fold_const) if rn.ast.value is not None else set(["None"])
-        shapes |= ts
-        if "strlist" in ts and isinstance(rn.ast.value, ast.Name):
-            lv = rn.ast.value.id
-
-            def classify(leaf, lv=lv, cnt_param=cnt_param):
-                if isinstance(leaf, ast.Compare) and len(leaf.ops) == 1 and isinstance(leaf.ops[0], ast.Is) \
-                        and unparse(leaf.left) == cnt_param and unparse(leaf.comparators[0]) == "None":
-                    return "N"
-                if isinstance(leaf, ast.Compare) and len(leaf.ops) == 1 and isinstance(leaf.ops[0], ast.Eq):
-                    sides = set([unparse(leaf.left), unparse(leaf.comparators[0])])
-                    if sides == set(["len(%s)" % lv, cnt_param]):
-                        return "E"
-                return None
-            good = known(g, rn, classify, lambda a: a["N"] or a["E"], ["N", "E"])
-            rep.check(good, "RET-1", "tuple_get enforces the tuple length", "every path to the return knows count is None or len == count",
-                      "tuple_get can return a list whose length differs from the required count", where(tg, rn.ast),
-                      witness="a 3-tuple value is accepted for dtype 2-tuple")
-    rep.check(shapes <= set(["None", "strlist"]) and "strlist" in shapes, "RET-1", "tuple_get returns a list of stripped strings or None", str(sorted(shapes)),
-              "tuple_get returns %s" % sorted(shapes), tg.where)
-    # aliases
-    for alias, target in (("bool_get", "boolean_get"), ("bool_set", "boolean_get"), ("string_get", "str_get"), ("str_set", "str_get"),
-                          ("time_set", "time_get"), ("date_set", "date_get"), ("datetime_set", "datetime_get"), ("boolean_set", "boolean_get")):
-        r = prog.resolve_symbol("odml.dtypes", alias)
-        rep.check(getattr(r, "name", None) == target, "RET-1", "alias %s -> %s" % (alias, target), "ok",
-                  "dtypes.%s no longer is %s" % (alias, target), dmod.path)
+    ret1_rule(prog, rep)
 
     # ------------------------------------------------------------------ ATOM
     rep.rule("ATOM", "ATOM analysis (see C06) of the value editing methods of BaseProperty; a finding counts for C05 when the write "
